@@ -47,6 +47,7 @@ DEFAULT_FEATURES = {
     "array_literal_effect": False,  # effectful element in an array literal: nanoc's evaluator evaluates the first element twice (and native right-to-left)
     "string_field_direct": False,   # a struct's string field used directly as a let/set value: nanoc's evaluator frees it (garbage / crash)
     "aggregate_string_alias": False,  # a string variable stored (uncopied) into a struct/union/tuple/array field and reassigned later: nanoc's evaluator leaves the field dangling
+    "block_shadow_selfref": False,  # inner `let x = f(x)` shadowing an outer x: natively the initialiser reads the new, uninitialised x
     "print_indirect_call": False,  # (println (f args)) through a function value prints <unknown> natively
 }
 
@@ -745,19 +746,26 @@ class Gen:
             e = ("call", "str_length", [self.expr(sc, "string", 2)])
             sc.add(name, "int")
             return [("let", name, "int", False, e)]
+        name = self.fresh()
+        shadowed = None
+        if self.f["block_shadow"] and self.block_depth > 0 and self.chance(0.3):
+            outer = [n for n, d in sc.vars() if d["t"] == t and not d["owned"] and n.startswith("v")]
+            if outer:
+                name = shadowed = r.choice(outer)
+                self.tag("block.shadow")
+        # `let x = <expr mentioning the outer x>` in an inner block is the native self-reference defect
+        hide = shadowed is not None and not self.f["block_shadow_selfref"]
+        if hide:
+            sc.hidden.add(shadowed)
         self.in_let_init = True
         try:
             e = self.expr(sc, t, 3)
         finally:
             self.in_let_init = False
+            if hide:
+                sc.hidden.discard(shadowed)
         if e is None:
             return None
-        name = self.fresh()
-        if self.f["block_shadow"] and self.block_depth > 0 and self.chance(0.3):
-            outer = [n for n, d in sc.vars() if d["t"] == t and not d["owned"] and n.startswith("v")]
-            if outer:
-                name = r.choice(outer)
-                self.tag("block.shadow")
         mut = self.chance(0.45) and not isinstance(t, tuple)
         known = len(e[2]) if e[0] == "arr" else None
         if isinstance(t, tuple) and t[0] == "array" and e[0] == "arr" and self.f["array_mut"] and self.chance(0.4):
@@ -1318,14 +1326,26 @@ def evaluate(prog, max_steps=1000000):
     return res
 
 
-def make_program(rng, features=None, size=1.0, tries=60):
-    """Generate until a program inside the defined zone comes out.  Returns (Program, expected) or (None, None)."""
+# constructs on which only nanoc's compile-time evaluator is wrong: usable when the shadow blocks are neutral
+EVALUATOR_ONLY_SWITCHES = {"block_shadow": True, "string_field_direct": True, "aggregate_string_alias": True,
+                           "self_assign": True, "fnvalue_copy": True}
+
+
+def make_program(rng, features=None, size=1.0, tries=60, neutral_shadows=False):
+    """Generate until a program inside the defined zone comes out.  Returns (Program, expected) or (None, None).
+    neutral_shadows: every shadow block is `assert true` (the compile-time evaluator then runs none of the
+    program's code), which allows constructs on which only the evaluator is wrong."""
     import random
     for _ in range(tries):
         sub = random.Random(rng.getrandbits(64))
         g = Gen(sub, features, size)
         try:
             prog = g.generate()
+            if prog is not None and neutral_shadows:
+                for f in prog.all_funcs():
+                    if f.shadow:
+                        f.shadow = [("assert", ("bool", True))]
+                prog.tags.add("neutral-shadows")
             if prog is not None:
                 prog.files()          # an incomplete construct (None expression) cannot be printed: discard
             exp = evaluate(prog) if prog is not None else None
